@@ -404,6 +404,73 @@ def rule_r8(ctx):
     return rr
 
 
+def rule_r9(ctx):
+    """Class creation protocol (reference 3.3.3): (1) `__mro_entries__` of the bases is resolved
+    (`types.resolve_bases`), (2) the metaclass is determined, (3) the namespace is prepared and the
+    BODY IS EXECUTED IN IT, (4) the metaclass is called with the POPULATED namespace; `type.__new__`
+    then calls `__set_name__` of the attributes, `__init_subclass__` of the parent (which may read
+    the class attributes), honours `__slots__`, sets `__hash__ = None` for a class with `__eq__`,
+    and wraps `__init_subclass__`/`__class_getitem__` in classmethod only when they are plain
+    functions.  Structural clauses checked on the ClassDef / FunctionDef templates."""
+    rr = RuleResult("C12-R9", "class creation: bases resolved, body executed before the metaclass call, which receives the populated namespace")
+    rr.floor = 2
+    entry = ctx.tmpl.pending_by_kind("ClassDef")
+    seen = set()
+    for pr in entry.ok_paths():
+        evs, w = path_events(pr)
+        body = [e for e in evs if e.kind == "S" and (e.path or "").startswith("ClassDef.body")]
+        creation = None
+        for t in iter_tnodes(pr.result):
+            if t.kind == "Call":
+                args = t.fields.get("args")
+                items = args.items if isinstance(args, PList) else []
+                if len(items) == 3 and isinstance(items[0], TNode) and items[0].kind == "Constant" and isinstance(items[0].fields.get("value"), UPrim) and isinstance(items[1], TNode) and items[1].kind == "Tuple":
+                    creation = t
+        rr.instances += 1
+        if creation is None:
+            raise AnalysisError("C12-R9: the metaclass call (name, bases, namespace) was not found in the ClassDef template")
+        ns = creation.fields["args"].items[2]
+        empty = isinstance(ns, TNode) and ns.kind == "Dict" and isinstance(ns.fields.get("keys"), PList) and not ns.fields["keys"].items
+        if empty and "ns" not in seen:
+            seen.add("ns")
+            rr.fail(
+                "C12-R9|ClassDef|namespace-empty-at-creation",
+                "PendingClassDef.get_result: the metaclass is called with an EMPTY namespace `meta(name, bases, {})` and the members are attached afterwards with setattr: a parent's __init_subclass__ (plugin registries) and a metaclass __new__/__init__ see a class without attributes, __set_name__ of descriptors is never called, __slots__ and `__hash__ = None` (class with __eq__) are not honoured, abstract methods do not make the class abstract, enum.Enum subclasses cannot be created",
+                what="ClassDef|namespace",
+            )
+        elif not empty:
+            rr.ok("ClassDef|namespace")
+        texts = [x.fields.get("id").value for x in iter_tnodes(pr.result) if x.kind == "Name" and isinstance(x.fields.get("id"), Cst)]
+        attrs = [x.fields.get("attr").value for x in iter_tnodes(pr.result) if x.kind == "Attribute" and isinstance(x.fields.get("attr"), Cst)]
+        if not any(n in ("resolve_bases", "new_class", "prepare_class") for n in texts + attrs) and "bases" not in seen:
+            seen.add("bases")
+            rr.instances += 1
+            rr.fail(
+                "C12-R9|ClassDef|bases-not-resolved",
+                "PendingClassDef.get_result: the tuple of bases is handed to the metaclass as written; PEP 560 requires `types.resolve_bases` first: `class Stack(typing.Generic[T])` and `class L(list[int])` raise `TypeError: type() doesn't support MRO entry resolution`",
+                what="ClassDef|bases",
+            )
+    # implicit classmethod: only when the (decorated) object is a plain function
+    fent = ctx.tmpl.pending_by_kind("FunctionDef")
+    for pr in fent.ok_paths():
+        evs, w = path_events(pr)
+        wraps = [e for e in evs if e.kind == "call" and isinstance(e.node, TNode) and _is_name_call(e.node, "classmethod")]
+        if not wraps:
+            continue
+        rr.instances += 1
+        guarded = any(e.guards for e in wraps) or any(t.kind == "IfExp" for t in iter_tnodes(pr.result) if any(c is wraps[0].node for c in iter_tnodes(t)))
+        if not guarded and "cm" not in seen:
+            seen.add("cm")
+            rr.fail(
+                "C12-R9|FunctionDef|implicit-classmethod-unconditional",
+                "PendingFunctionDef.get_result: __init_subclass__/__class_getitem__ are wrapped in classmethod() unconditionally; type.__new__ wraps them only when the attribute is a plain function. With an explicit `@classmethod` the text contains classmethod(classmethod(f)): TypeError on Python 3.8 and 3.13, `cls` bound to `type` on 3.9",
+                what="FunctionDef|implicit-classmethod",
+            )
+        elif guarded:
+            rr.ok("FunctionDef|implicit-classmethod")
+    return rr
+
+
 def rule_c06r6(ctx):
     from .c06 import rule_r6
 
@@ -452,4 +519,4 @@ def rule_c07r2(ctx):
     return rr
 
 
-RULES = [("C07-R2", rule_c07r2), ("C12-R1", rule_r1), ("C12-R2", rule_r23), ("C12-R4", rule_r4), ("C12-R5", rule_r5), ("C12-R7", rule_r7), ("C12-R8", rule_r8), ("C12-R6", rule_c06r6), ("C06-R4", rule_c06r4)]
+RULES = [("C07-R2", rule_c07r2), ("C12-R1", rule_r1), ("C12-R2", rule_r23), ("C12-R4", rule_r4), ("C12-R5", rule_r5), ("C12-R7", rule_r7), ("C12-R8", rule_r8), ("C12-R9", rule_r9), ("C12-R6", rule_c06r6), ("C06-R4", rule_c06r4)]
